@@ -49,6 +49,8 @@ def cases(tier, seed):
     for n in range(1, (150 if th else 60) + 1):
         out.append({"kind": "helper", "n": n})
     rng.shuffle(out)
+    if th:
+        out.insert(0, {"kind": "suite", "file": "tests/test_mixed.py"})
     return out
 
 
@@ -66,6 +68,9 @@ def unlabel(actions):
 def run_case(case, ctx):
     if case.get("kind") == "helper":
         return run_helper(case)
+    if case.get("kind") == "suite":
+        from ..suite import suite_case
+        return suite_case(case)
     n, s = case["n"], case["s"]
     viols, evals, counters = [], {}, {}
     streams = {}
